@@ -13,6 +13,7 @@ import Ldap3V.Lemmas.RequestsHandle
 import Ldap3V.Props.C07
 import Ldap3V.Lemmas.FilterShape
 import Ldap3V.Lemmas.FilterNesting
+import Ldap3V.Gen.AppTags
 namespace Ldap3V
 open Spec
 
@@ -206,5 +207,39 @@ example : (∃ t, Filter.parse (Filter.notStr 63 [0x28, 0x61, 0x3D, 0x62, 0x29])
     63 < Filter.nest 0 (Filter.notStr 63 [0x28, 0x61, 0x3D, 0x62, 0x29]) := by
   obtain ⟨t, h, _⟩ := (Filter.parse_notStr 63).1 (by decide)
   exact ⟨⟨t, h⟩, by rw [Filter.nest_notStr]; decide⟩
+
+/-! ### tie by regeneration (translate/app_tags.py): the protocolOp tag numbers
+
+Every request builder of src/ldap.rs / src/search.rs writes its protocolOp as a literal
+`Tag::K(K { id: N, class: TagClass::Application, .. })`; the translator reads `N` and `K` out of the CURRENT source,
+per enclosing function (`Gen/AppTags.lean`). -/
+
+/-- class, tag number and constructed/primitive form of the outermost element of a tag -/
+def rootForm (t : Tag) : Nat × Nat × Bool :=
+  match t.toTlv with
+  | .prim c i _ => (c, i, false)
+  | .cons c i _ => (c, i, true)
+
+/-- For every request kind the model's `build` produces class APPLICATION (1), the tag number that the builder
+of that operation carries in the source today, and the same form (constructed SEQUENCE / primitive). -/
+theorem C02_app_tags_source :
+    (∀ dn pw, rootForm (build (.simpleBind dn pw)) = (1, Gen.appTag_simple_bind, Gen.appCons_simple_bind)) ∧
+    rootForm (build .saslExternal) = (1, Gen.appTag_sasl_bind_req, Gen.appCons_sasl_bind_req) ∧
+    (∀ b sc d sl tl ty f a, rootForm (build (.search b sc d sl tl ty f a)) = (1, Gen.appTag_start_inner, Gen.appCons_start_inner)) ∧
+    (∀ dn a, rootForm (build (.add dn a)) = (1, Gen.appTag_add, Gen.appCons_add)) ∧
+    (∀ dn a v, rootForm (build (.compare dn a v)) = (1, Gen.appTag_compare, Gen.appCons_compare)) ∧
+    (∀ dn, rootForm (build (.delete dn)) = (1, Gen.appTag_delete, Gen.appCons_delete)) ∧
+    (∀ dn m, rootForm (build (.modify dn m)) = (1, Gen.appTag_modify, Gen.appCons_modify)) ∧
+    (∀ dn r d n, rootForm (build (.modifyDn dn r d n)) = (1, Gen.appTag_modifydn, Gen.appCons_modifydn)) ∧
+    (∀ n v, rootForm (build (.extended n v)) = (1, Gen.appTag_extended, Gen.appCons_extended)) ∧
+    rootForm (build .unbind) = (1, Gen.appTag_unbind, Gen.appCons_unbind) ∧
+    (∀ id, rootForm (build (.abandon id)) = (1, Gen.appTag_abandon, Gen.appCons_abandon)) := by
+  refine ⟨fun _ _ => rfl, rfl, fun _ _ _ _ _ _ _ _ => rfl, fun _ _ => rfl, fun _ _ _ => rfl, fun _ => rfl,
+    fun _ _ => rfl, fun _ _ _ _ => rfl, ?_, rfl, fun _ => rfl⟩
+  intro n v
+  cases n <;> rfl
+
+example : rootForm (build (.delete [0x78])) = (1, 10, false) ∧ rootForm (build (.add [0x78] [])) = (1, 8, true) := by
+  decide
 
 end Ldap3V
